@@ -15,8 +15,8 @@ import (
 // every element) miscounts and over-reads payloads of any other kind.
 func init() {
 	register(&Rule{
-		Name: "PACKEDKIND",
-		Doc: "every loop whose condition compares the cursor with `start + length` for a length decoded by ReadLength() consumes its elements through at least one cursor-advancing call that receives the element's kind as a non-constant argument (proto.WireType, proto.Type, ProtoKind, *TypeDescriptor, *FieldDescriptor — or that is handed the tag's wire type it has just consumed); a body that only calls fixed primitives treats every element as that primitive",
+		Name:     "PACKEDKIND",
+		Doc:      "every loop whose condition compares the cursor with `start + length` for a length decoded by ReadLength() consumes its elements through at least one cursor-advancing call that receives the element's kind as a non-constant argument (proto.WireType, proto.Type, ProtoKind, *TypeDescriptor, *FieldDescriptor — or that is handed the tag's wire type it has just consumed); a body that only calls fixed primitives treats every element as that primitive",
 		Configs:  "NP",
 		Floor:    map[string]int{"N": 6, "P": 6},
 		Controls: 1,
